@@ -615,6 +615,15 @@ func c19Outbound(x *c19World, spec c19Spec, res *core.CaseResult, verbose bool, 
 		if f.ending == "timeout" {
 			continue
 		}
+		if f.ending == "ack-error" && rng.IntN(3) == 0 {
+			// the remote chain is not this application: it rejects the packet with an error acknowledgement
+			// whose text is empty (still an error acknowledgement by its kind)
+			f.ack = []byte(`{"error":""}`)
+			x.loop.RecvForeign(c.Ctx, f.pkt, f.ack)
+			f.ending = "ack-error"
+			res.Count("foreign_empty_error_acks", 1)
+			continue
+		}
 		ack, rr := x.loop.Recv(c.Ctx, f.pkt)
 		if !rr.OK() {
 			res.Inconclusive = "recv: " + rr.ErrString()
